@@ -52,7 +52,7 @@ var numLit = map[string]string{
 
 // string classes: JSON literal and the Go string it denotes
 var strLit = map[string][2]string{
-	"sx": {`"x"`, "x"}, "se": {`""`, ""}, "s12": {`"12"`, "12"}, "sb64": {`"YWI="`, "YWI="},
+	"sx": {`"x"`, "x"}, "se": {`""`, ""}, "s12": {`"12"`, "12"}, "sb64": {`"YWI="`, "YWI="}, "sb1": {`"YQ=="`, "YQ=="}, "sb3": {`"YWJj"`, "YWJj"},
 	"sesc": {`"a\né\"A\/"`, "a\né\"A/"}, "snull": {`"null"`, "null"}, "strue": {`"true"`, "true"},
 	"sq": {`"\"x\""`, `"x"`}, "ssur": {`"\ud800"`, "�"}, "sctl": {"\"a\x01b\"", "a\x01b"}, "sbad": {"\"a\xffb\"", "a�b"},
 	"old": {`"old"`, "old"}, "none": {`""`, ""},
